@@ -1,5 +1,5 @@
 (** Correspondence checkers for C19 (XML half). *)
-From CM Require Import Harness.RunBase Base.Dict Model.XmlPipe Spec.XmlPipeSpec.
+From CM Require Import Harness.RunBase Base.Dict Model.XmlPipe Spec.XmlPipeSpec Generated.Tables.
 
 Definition attrs_eqb : dict str str -> dict str str -> bool := list_eqb (pair_eqb str_eqb str_eqb).
 Definition ostr_eqb : option str -> option str -> bool := option_eqb str_eqb.
@@ -43,6 +43,9 @@ Definition step_of (c : xml_case) : pevent -> list event * list xchange :=
   end.
 Definition xdiff_of (g : list (str * str)) (orig new : str) : option str := dget str_eqb new g.
 
+(** `not diff`: the implementation's diff of (original, new) is the empty string *)
+Definition xdiff_empty (d : option str) : bool := match d with Some [] => true | _ => false end.
+
 Definition xout_eqb (m : xapply_out (D := option str)) (o : xobs) : bool :=
   let '(ret, file, failed, unf) := o in
   match xo_ret m, ret with
@@ -53,8 +56,8 @@ Definition xout_eqb (m : xapply_out (D := option str)) (o : xobs) : bool :=
 
 (** MODEL = IMPLEMENTATION: returned changes, diff, written text byte for byte, failure bookkeeping *)
 Definition xml_model_ok (c : xml_case) : bool :=
-  xout_eqb (xml_apply (x_fc c) (xdiff_of (x_diffs c)) (step_of c) false (x_orig c) (x_parse c)) (x_real c) &&
-  xout_eqb (xml_apply (x_fc c) (xdiff_of (x_diffs c)) (step_of c) true (x_orig c) (x_parse c)) (x_dry c).
+  xout_eqb (xml_apply (x_fc c) (xdiff_of (x_diffs c)) xdiff_empty xml_pipeline_diff_guard (step_of c) false (x_orig c) (x_parse c)) (x_real c) &&
+  xout_eqb (xml_apply (x_fc c) (xdiff_of (x_diffs c)) xdiff_empty xml_pipeline_diff_guard (step_of c) true (x_orig c) (x_parse c)) (x_dry c).
 
 (** the expected stream and changes *)
 Definition expected_events (c : xml_case) (evs : list pevent) : list event :=
